@@ -103,6 +103,19 @@ fn gen_grid(rng: &mut Rng, out: &mut UnitResult) -> MSheet {
         prev_row = if row.is_empty() { None } else { Some(row) };
         r += 1;
     }
+    // a long run of empty cells / rows before a value (run-length counts far above any
+    // "sensible" width: 1024 was LibreOffice's column limit, 16384 is today's)
+    if !sh.cells.is_empty() && rng.chance(1, 6) {
+        let row = sh.cells.keys().next().unwrap().0;
+        let col = *rng.pick(&[1023u32, 1024, 1025, 1026, 2047, 2048, 5000, 16383]);
+        sh.cells.insert((row, col), mk(rng, &mut serial, (row, col)));
+        out.feat("far_column>=1023");
+    } else if !sh.cells.is_empty() && rng.chance(1, 6) {
+        let col = sh.cells.keys().next().unwrap().1;
+        let row = r0 + h + *rng.pick(&[1023u32, 1024, 1025, 4096, 20_000]);
+        sh.cells.insert((row, col), mk(rng, &mut serial, (row, col)));
+        out.feat("far_row>=1023");
+    }
     if r0 > 1 {
         out.feat("leading_empty_rows>1");
     }
@@ -210,7 +223,7 @@ impl Prop for C04 {
         tier.pick(16, 240)
     }
     fn mandatory(&self, _t: Tier) -> Vec<String> {
-        ["cuts:Maximal", "cuts:Explicit", "cuts:Random", "trailing:Absent", "trailing:Explicit", "trailing:Huge", "interior_blank_rows", "interior_blank_row_first_col>0", "duplicated_row", "duplicated_cells", "leading_empty_rows>1", "first_col>0", "repeated_value_cell", "repeated_empty_cell", "repeated_value_row", "repeated_empty_row", "covered_cell", "wrapper:table:table-header-rows", "wrapper:table:table-row-group", "wrapper:table:table-rows", "str:text:p", "str:string-value", "str:multi_paragraph"]
+        ["cuts:Maximal", "cuts:Explicit", "cuts:Random", "trailing:Absent", "trailing:Explicit", "trailing:Huge", "interior_blank_rows", "interior_blank_row_first_col>0", "duplicated_row", "duplicated_cells", "leading_empty_rows>1", "first_col>0", "far_column>=1023", "far_row>=1023", "repeated_value_cell", "repeated_empty_cell", "repeated_value_row", "repeated_empty_row", "covered_cell", "wrapper:table:table-header-rows", "wrapper:table:table-row-group", "wrapper:table:table-rows", "str:text:p", "str:string-value", "str:multi_paragraph"]
             .iter().map(|s| s.to_string()).collect()
     }
     fn run_unit(&self, ctx: &Ctx, unit: u64, out: &mut UnitResult) {
